@@ -384,9 +384,25 @@ def run(v, tier, seed, g):
     n_in = n_out = 0
     distinct = set()
     outside_witnesses = []
+    model_ok = len(rendered) == len(trees)
     for i, (tr, tup, text) in enumerate(zip(trees, tuples, texts)):
-        if i >= len(rendered):
-            break
+        if not model_ok:
+            # the printer model does not evaluate (its proof obligations broke): search for a concrete failing input
+            # with the independent reader alone — does the real text read back as the tree?
+            if "--" in text:
+                continue
+            try:
+                from pycparser import c_parser
+                ast = c_parser.CParser().parse("void f(void){ r = " + text + "; }")
+                got = cparse.c_expr(ast.ext[0].body.block_items[0].rvalue)
+                want = map_calls(named(canon_py(tup), lambda n: "I" if n == 7 else f"x{n}"), fwd)
+                bad = got != want
+            except Exception:  # noqa: BLE001
+                bad = True
+            if bad and sum(1 for x in v.violations if "fmtC-search" in x[0]) < 3:
+                v.violation(f"fmtC-search:{text[:60]}", f"C text {text!r} does not read back as the AST it was printed from (independent C parser; found while the printer model was broken)",
+                            {"text": text, "tree": str(tup)})
+            continue
         wf, noneg, lexs = flags[i]
         # model tokens: function names spelled as in the C table
         model = " ".join(("f:" + fwd.get(t[2:], t[2:])) if t.startswith("f:") else t for t in rendered[i].split(" "))
